@@ -63,9 +63,9 @@ type Workload struct {
 	// Weight is the share of runs in a tier (quick, thorough).
 	Quick, Thorough int
 	Run             func(rc *RunCtx) Outcome
-	// Enumerate, when set, replaces index-based generation: the workload lists
-	// its cells for the tier and Run receives Params["cell"].
-	Enumerate func(tier string, seed sim.Seed) []map[string]string
+	// EnumerateT, when set, replaces index-based generation: the workload lists
+	// its cells for the tier (fault enumeration) and Run receives them as Params.
+	EnumerateT func(t *testing.T, tier string, verifSeed int64, seed sim.Seed) ([]map[string]string, error)
 }
 
 // Replay is the file format of /verif/replays/*.json.
@@ -180,8 +180,13 @@ func Main(t *testing.T, property string, workloads []Workload) {
 		if only != "" && w.Name != only {
 			continue
 		}
-		if w.Enumerate != nil {
-			cells := w.Enumerate(tier, root.Sub(w.Name))
+		if w.EnumerateT != nil {
+			cells, err := w.EnumerateT(t, tier, seed, root.Sub(w.Name))
+			if err != nil {
+				fmt.Printf("HARNESS-ERROR enumerating %s: %v\n", w.Name, err)
+				res.HarnessErr = fmt.Sprintf("enumerating %s: %v", w.Name, err)
+				continue
+			}
 			for ci, cell := range cells {
 				jobs = append(jobs, job{w, gi, cell, (float64(ci) + 0.5) / float64(len(cells))})
 				gi++
@@ -199,6 +204,9 @@ func Main(t *testing.T, property string, workloads []Workload) {
 	}
 	// interleave workloads so that a budget cut-off leaves every workload sampled
 	sort.SliceStable(jobs, func(a, b int) bool { return jobs[a].pos < jobs[b].pos })
+	if res.HarnessErr != "" {
+		jobs = nil
+	}
 	mine := 0
 	for ji, j := range jobs {
 		if ji%workers != worker {
